@@ -35,7 +35,7 @@ def evaluate(patch, raw=False):
     try:
         shutil.copytree("/repo/unified_planning", os.path.join(scratch, "unified_planning"), ignore=shutil.ignore_patterns("__pycache__", "test"))
         if patch is not None:
-            r = subprocess.run(["patch", "-p1", "-s", "-d", scratch, "-i", os.path.abspath(patch)], capture_output=True, text=True)
+            r = subprocess.run(["patch", "-p1", "-s", "-F0", "-d", scratch, "-i", os.path.abspath(patch)], capture_output=True, text=True)
             if r.returncode != 0:
                 return {"applied": False, "error": (r.stdout + r.stderr)[-400:]}
         ev = os.path.join(scratch, "_ev")
